@@ -65,7 +65,7 @@ ASSUMPTIONS = [
 ]
 REQUIRED_COUNTERS = ["programs", "config_compared", "commands_compared", "unsupported_tried", "cli_runs",
                      "grammar_actions_executed", "directed"]
-CASE_TIMEOUT_S = 300
+CASE_TIMEOUT_S = 900
 WATCHDOG_S = {"quick": 900, "thorough": 3600}
 
 U32 = 0xFFFFFFFF
@@ -979,6 +979,17 @@ def norm_ref(prog):
     }
 
 
+def short(v):
+    """Witness values for the log: an implementation that regroups operands can produce integers of millions of bits."""
+    if isinstance(v, int) and not isinstance(v, bool) and v.bit_length() > 256:
+        return f"<integer of {v.bit_length()} bits>"
+    if isinstance(v, (list, tuple)):
+        return [short(x) for x in v]
+    if isinstance(v, dict):
+        return {k: short(x) for k, x in v.items()}
+    return v
+
+
 def first_diff(a, b, path=""):
     if isinstance(a, dict) and isinstance(b, dict):
         for k in sorted(set(a) | set(b), key=str):
@@ -1175,7 +1186,7 @@ def judge_program(ctx, text, extern, *, meta=None, count_programs=True):
     d = first_diff(want, got)
     if d is not None:
         qs = classify_config(text, extern, got, prog)
-        detail = dict(witness, differs_at=d[0], expected=d[1], spsdk=d[2])
+        detail = dict(witness, differs_at=d[0], expected=short(d[1]), spsdk=short(d[2]))
         if qs:
             for q in qs:
                 ctx.violation(MECH[q], dict(detail, reinterpretation=list(qs)))
@@ -1215,7 +1226,7 @@ def judge_program(ctx, text, extern, *, meta=None, count_programs=True):
                       or (q == "blob-as-le-word" and kinds & {"load", "encrypt"})
                       or (q == "fuse-blob-by-magnitude" and "prog" in kinds)]
         qs = classify_commands(prog, read_file, got_cmds, applicable)
-        detail = dict(witness, first_difference=diffs[0][1], differences=len(diffs))
+        detail = dict(witness, first_difference=diffs[0][1][:300], differences=len(diffs))
         if qs:
             for q in qs:
                 ctx.violation(MECH[q], dict(detail, reinterpretation=list(qs)))
@@ -1401,16 +1412,16 @@ def judge_cli(ctx, text, extern, label, meta):
         expected = bd_ref.commands(prog, read_file)
     except bd_ref.BDError:
         return "skipped"
+    # the API path first (reports its own findings under their own keys); the command line is judged for programs
+    # on which the API path agrees with the reference or refuses, so that a CLI finding is specific to the CLI
+    stage = judge_program(ctx, text, extern, meta=meta, count_programs=False)
+    if stage in ("config-mismatch", "commands-mismatch", "commands-unjudged", "ref-rejected"):
+        ctx.count("cli_skipped_api_path_differs")
+        return "skipped-api"
+    api = "ok" if stage == "ok" else "refused"
     res, data = run_cli(ctx, text, extern, label)
     ctx.count("cli_runs")
     sig = ["cli", sorted(meta.get("kinds", []))]
-    # what the API path does with the same text
-    api = "ok"
-    try:
-        cfg, _ = spsdk_parse(text, extern)
-        spsdk_build(cfg, e)
-    except Exception:  # pylint: disable=broad-except
-        api = "refused"
     if res.exit_code != 0 or data is None:
         exc = res.exception
         ctx.refused(sig + ["refused"], f"cli: exit {res.exit_code} {type(exc).__name__ if exc else ''}")
@@ -1444,7 +1455,7 @@ def judge_cli(ctx, text, extern, label, meta):
             if not diff_commands(alt, sections, exact_load_length=False):
                 qs = cand
                 break
-        detail = {"program": text, "first_difference": diffs[0][1], "via": "nxpimage sb21 export + reference SB2.1 decoder"}
+        detail = {"program": text, "first_difference": diffs[0][1][:300], "via": "nxpimage sb21 export + reference SB2.1 decoder"}
         if qs:
             for q in qs:
                 ctx.violation(MECH[q], dict(detail, reinterpretation=list(qs)))
@@ -1558,13 +1569,13 @@ def run_case(case, ctx):  # noqa: C901
             text = g.program()
             if "flags" not in text:
                 continue
-            st = judge_cli(ctx, text, g.extern, f"{case['k']}_{done}", {"kinds": g.kinds})
-            if st != "skipped":
+            st = judge_cli(ctx, text, g.extern, f"{case['k']}_{done}", {"kinds": g.kinds, "blocks": g.blocks})
+            if st not in ("skipped", "skipped-api"):
                 done += 1
         if case["k"] == 0:
             for label, text in DIRECTED:
                 if label in ("statements", "keyblob-order", "fuse-blob-8", "blob-mem", "fill-range"):
-                    judge_cli(ctx, text, [], "d_" + label.replace("-", "_"), {"kinds": [label]})
+                    judge_cli(ctx, text, [], "d_" + label.replace("-", "_"), {"kinds": [label], "blocks": ["directed"]})
         return
 
     raise core.Inconclusive(f"unknown case kind {kind}")
